@@ -434,7 +434,8 @@ class Traversal:
             ap = self.access_path(recv, env)
             vty = self.visitor_type_of(vis) if vis is not None else "?"
             recv_ty = core_type(hir.peel(recv).get("ty") or "")
-            effects.append({"kind": kind, "ap": ap, "vty": vty, "node": n, "recv_ty": recv_ty, "in_fn": self.fn.def_path})
+            # a type can implement both traits: its read-only walk (Visit) is another visitor than its rewriting one
+            effects.append({"kind": kind, "ap": ap, "vty": vty if mode == "mut" else vty + "/Visit", "mode": mode, "node": n, "recv_ty": recv_ty, "in_fn": self.fn.def_path})
             return self._seq(cur, [Path(effects=effects)])
         # 2. closures passed to known higher-order functions
         closures = [a for a in args if hir.peel(a).get("k") == "Closure"]
@@ -530,7 +531,11 @@ class Traversal:
         return (not missing), missing
 
     def visitor_ty_name(self):
-        return re.sub(r"<.*>$", "", self.visitor_ty)
+        """the identity of the visitor this override belongs to: its type, tagged `/Visit` for the read-only
+        trait (a type can implement both Visit and VisitMut; the two walks are different visitors)"""
+        base = re.sub(r"<.*>$", "", self.visitor_ty)
+        tr = (self.fn.rec.get("impl_of_trait") or "").split("<")[0]
+        return base + "/Visit" if tr.endswith("swc_ecma_visit::Visit") else base
 
     def ap_str(self, ap):
         if ap is None:
